@@ -23,6 +23,11 @@ class Stream(Family):
         for i in range(n):
             main, calls = gc.gen_wellformed_calls(rng)
             yield dict(kind='wellformed', main=main, calls=calls)
+            if i % 10 == 0:
+                # a file that declares no encoding (valid: content is then 8-bit data); metadata may be written with
+                # no encoding in force at all
+                main, calls = gc.gen_wellformed_calls(rng, no_main=True)
+                yield dict(kind='wellformed', main=main, calls=calls, noenc=True)
 
     def _impl(self, c):
         if '_impl' not in c:
@@ -57,7 +62,7 @@ class Stream(Family):
         return multi or enc or nonascii
 
     def bucket(self, c):
-        return '%s/%dcalls' % (c['kind'], min(len(c['calls']), 12) // 4 * 4)
+        return '%s%s/%dcalls' % (c['kind'], '-noenc' if c.get('noenc') else '', min(len(c['calls']), 12) // 4 * 4)
 
     def oracle(self, c, obs):
         wobs, data, robs, rt, orc, per = self._impl(c)
@@ -166,6 +171,21 @@ INVALID = [
     (['write_diff', sl.Bv(b'x\n'), sl.S('weird'), None, None], True),
     (['write_diff', sl.Bv(b'x\n'), None, None, sl.S('mac')], True),
     (['write_diff', sl.Bv(b'x\n'), None, sl.S('nope'), None], True),
+    # invalid values that are FALSY in Python (a `if value and value not in VALID` guard lets them through)
+    (['write_preamble', sl.S('x'), None, 'omitted', sl.S(''), None], True),
+    (['write_preamble', sl.S('x'), None, 'omitted', {'i': 0}, None], True),
+    (['write_preamble', sl.S('x'), None, 'omitted', {'bool': False}, None], True),
+    (['write_preamble', sl.S('x'), None, 'omitted', sl.Bv(b''), None], True),
+    (['write_preamble', sl.S('x'), None, 'omitted', None, sl.S('')], True),
+    (['write_preamble', sl.S('x'), None, 'omitted', None, {'i': 0}], True),
+    (['write_meta', {'d': {'k': 1}}, None, sl.S('')], True),
+    (['write_meta', {'d': {'k': 1}}, None, {'i': 0}], True),
+    (['write_meta', {'d': {'k': 1}}, None, None], True),
+    (['write_diff', sl.Bv(b'x\n'), sl.S(''), None, None], True),
+    (['write_diff', sl.Bv(b'x\n'), {'i': 0}, None, None], True),
+    (['write_diff', sl.Bv(b'x\n'), None, None, sl.S('')], True),
+    (['write_diff', sl.Bv(b'x\n'), None, None, {'i': 0}], True),
+    (['write_diff', sl.Bv(b'x\n'), None, None, {'bool': False}], True),
 ]
 
 
@@ -501,7 +521,7 @@ def classify_c07(intact, got, exhausted):
             same_opts = oa == ob
             for key in ('text', 'diff'):
                 if key in a and key in b and type(a[key]) is type(b[key]) and same_opts and \
-                        a[key].startswith(b[key]) and len(b[key]) < len(a[key]):
+                        a[key].startswith(b[key]) and 0 < len(b[key]) < len(a[key]):
                     return ('short-read-accepted',
                             'record %d (%s) was yielded with content cut short (%d of %d units) because the stream '
                             'ended inside it' % (i, g['section'], len(b[key]), len(a[key])))
@@ -614,7 +634,10 @@ class Truncate(Family):
                     a, b = intact[si], records[si]
                     same = all(a.get(k) == b.get(k) for k in ('text', 'metadata', 'diff'))
                     if not same:
-                        exceeds = n is not None and n > 0
+                        # the known short read yields a non-empty, newline-terminated part of the content; a section
+                        # yielded with NO content at all is not that finding
+                        nonempty = any(b.get(k) for k in ('text', 'metadata', 'diff'))
+                        exceeds = n is not None and n > 0 and nonempty
                         out.append(('C07', 'short-read-accepted' if exceeds else 'bad-length-accepted',
                                     'length=%s (true %d) at section %d (%s): the section was yielded with different '
                                     'content' % (v, true, si, b['section'])))
@@ -1165,6 +1188,26 @@ class Fuzz(Family):
                                                             % (sec.encode(), codec.encode(), len(body)) + body))
                 yield dict(kind='exotic-codec', data=hx(b'#diffx: version=1.0, encoding=%s\n#.preamble: length=%d\n'
                                                         % (codec.encode(), len(body)) + body))
+        # every header of a small file x every option key x ill-typed / out-of-range / unknown values: a value the
+        # header grammar accepts can still be unusable where it is consumed (also when it is INHERITED by a child)
+        grid_base = [('diffx', [('version', '1.0'), ('encoding', 'utf-8')], None),
+                     ('.preamble', [], b'hello\n'), ('.meta', [('format', 'json')], b'{"a": 1}\n'),
+                     ('.change', [], None), ('..preamble', [], b'hi\n'), ('..meta', [], b'{}\n'),
+                     ('..file', [], None), ('...meta', [], b'{}\n'), ('...diff', [], b'x\n')]
+        grid_keys = ['encoding', 'length', 'indent', 'line_endings', 'format', 'version', 'type', 'mimetype', 'x']
+        grid_vals = ['5', '0', '-1', '007', 'abc', '1_0', 'True', 'None', 'x/y', 'utf-16', 'dos', '9' * 4301]
+        for hi in range(len(grid_base)):
+            for key in grid_keys:
+                for val in grid_vals:
+                    out = []
+                    for j, (sid, opts, body) in enumerate(grid_base):
+                        opts = list(opts)
+                        if body is not None:
+                            opts.append(('length', str(len(body))))
+                        if j == hi:
+                            opts = [(k, v) for k, v in opts if k != key] + [(key, val)]
+                        out.append(gf.render_header(sid, opts, False) + (body or b''))
+                    yield dict(kind='option-grid', data=hx(b''.join(out)))
         # deep JSON
         deep = b'[' * 100000 + b']' * 100000 + b'\n'
         yield dict(kind='deep-json', data=hx(b'#diffx: version=1.0, encoding=utf-8\n#.meta: length=%d\n' % len(deep) + deep))
